@@ -483,6 +483,141 @@ func C12(tier Tier) int {
 			rt.Case(fmt.Sprintf("rt-call:name%d:args%d", len(name), len(al)))
 		}
 	}
+	// typed elements: every sequence of <= 3 typed appends (Byte, Str, Int, Int64, True/False/Bool,
+	// BigInt over boundary values) and the composite helpers, built, parsed with the call-arguments
+	// parser and compared with the argument values the methods are documented to append
+	{
+		cur := txDataBuilder.NewBuilder() // the builder the operations below act on
+		type typedOp struct {
+			name  string
+			apply func()
+			args  [][]byte // the values appended, as numbers / byte strings
+			num   []bool   // compare as a number (big-endian magnitude) rather than byte for byte
+			fn    string   // function name set by the composite helpers ("" = unchanged)
+		}
+		var ops []typedOp
+		one := func(name string, apply func(), v []byte, isNum bool) {
+			ops = append(ops, typedOp{name: name, apply: apply, args: [][]byte{v}, num: []bool{isNum}})
+		}
+		for _, v := range []byte{0, 1, 0x0f, 0x10, 0x40, 0x7f, 0x80, 0xff} {
+			v := v
+			one(fmt.Sprintf("Byte(%d)", v), func() { cur.Byte(v) }, []byte{v}, false)
+		}
+		for _, str := range []string{"", "a", "@", "a@b", "\x00", "\xff\x00", "true", "ESDTTransfer", "0a"} {
+			str := str
+			one(fmt.Sprintf("Str(%q)", str), func() { cur.Str(str) }, []byte(str), false)
+		}
+		for _, n := range []int64{0, 1, 15, 16, 127, 128, 255, 256, 65535, 65536, 1<<31 - 1, 1 << 31, 1<<32 - 1, 1 << 32, 1 << 62, 1<<63 - 1} {
+			n := n
+			one(fmt.Sprintf("Int(%d)", n), func() { cur.Int(int(n)) }, big.NewInt(n).Bytes(), true)
+			one(fmt.Sprintf("Int64(%d)", n), func() { cur.Int64(n) }, big.NewInt(n).Bytes(), true)
+		}
+		one("True", func() { cur.True() }, []byte("true"), false)
+		one("False", func() { cur.False() }, []byte("false"), false)
+		one("Bool(true)", func() { cur.Bool(true) }, []byte("true"), false)
+		one("Bool(false)", func() { cur.Bool(false) }, []byte("false"), false)
+		for _, v := range []*big.Int{big.NewInt(0), big.NewInt(1), big.NewInt(256), new(big.Int).Lsh(big.NewInt(1), 64), new(big.Int).Sub(new(big.Int).Lsh(big.NewInt(1), 64), big.NewInt(1)), new(big.Int).Lsh(big.NewInt(1), 100)} {
+			v := v
+			one("BigInt("+v.String()+")", func() { cur.BigInt(v) }, v.Bytes(), true)
+		}
+		flag := func(name string, apply func(v bool)) {
+			for _, v := range []bool{true, false} {
+				v := v
+				val := "false"
+				if v {
+					val = "true"
+				}
+				ops = append(ops, typedOp{name: fmt.Sprintf("%s(%v)", name, v), apply: func() { apply(v) }, args: [][]byte{[]byte("can" + name[3:]), []byte(val)}, num: []bool{false, false}})
+			}
+		}
+		flag("CanFreeze", func(v bool) { cur.CanFreeze(v) })
+		flag("CanWipe", func(v bool) { cur.CanWipe(v) })
+		flag("CanPause", func(v bool) { cur.CanPause(v) })
+		flag("CanMint", func(v bool) { cur.CanMint(v) })
+		flag("CanBurn", func(v bool) { cur.CanBurn(v) })
+		flag("CanTransferNFTCreateRole", func(v bool) { cur.CanTransferNFTCreateRole(v) })
+		flag("CanAddSpecialRoles", func(v bool) { cur.CanAddSpecialRoles(v) })
+		for _, tok := range []string{"TKN-0a0b0c", "F", ""} {
+			for _, q := range []int64{0, 1, 255, 256, 1 << 32, 1<<63 - 1} {
+				tok, q := tok, q
+				ops = append(ops,
+					typedOp{name: fmt.Sprintf("TransferESDT(%q,%d)", tok, q), apply: func() { cur.TransferESDT(tok, q) }, fn: vmcommon.BuiltInFunctionESDTTransfer, args: [][]byte{[]byte(tok), big.NewInt(q).Bytes()}, num: []bool{false, true}},
+					typedOp{name: fmt.Sprintf("BurnESDT(%q,%d)", tok, q), apply: func() { cur.BurnESDT(tok, q) }, fn: vmcommon.BuiltInFunctionESDTBurn, args: [][]byte{[]byte(tok), big.NewInt(q).Bytes()}, num: []bool{false, true}},
+					typedOp{name: fmt.Sprintf("IssueESDT(%q,%d)", tok, q), apply: func() { cur.IssueESDT(tok, "TK", q, 18) }, fn: "issue", args: [][]byte{[]byte(tok), []byte("TK"), big.NewInt(q).Bytes(), {18}}, num: []bool{false, false, true, false}})
+				for _, nonce := range []int{0, 1, 255, 256, 65536} {
+					nonce := nonce
+					ops = append(ops, typedOp{name: fmt.Sprintf("TransferESDTNFT(%q,%d,%d)", tok, nonce, q), apply: func() { cur.TransferESDTNFT(tok, nonce, q) }, fn: vmcommon.BuiltInFunctionESDTNFTTransfer,
+						args: [][]byte{[]byte(tok), big.NewInt(int64(nonce)).Bytes(), big.NewInt(q).Bytes()}, num: []bool{false, true, true}})
+				}
+			}
+		}
+		checkTyped := func(seq []int) {
+			cur = txDataBuilder.NewBuilder().Func("fn")
+			fn := "fn"
+			var want [][]byte
+			var isNum []bool
+			desc := ""
+			for _, i := range seq {
+				ops[i].apply()
+				if ops[i].fn != "" {
+					fn = ops[i].fn
+				}
+				want = append(want, ops[i].args...)
+				isNum = append(isNum, ops[i].num...)
+				desc += ops[i].name + " "
+			}
+			b := cur
+			str := b.ToString()
+			if string(b.ToBytes()) != str {
+				rt.Fail(P, "roundtrip", "builder-typed:ToBytes", fmt.Sprintf("after %s ToBytes gives %q, ToString %q", desc, b.ToBytes(), str), "case", desc)
+			}
+			gfn, gargs, err := c12Call.ParseData(str)
+			ok := err == nil && gfn == fn && len(gargs) == len(want)
+			if ok {
+				for k := range want {
+					if isNum[k] {
+						ok = ok && new(big.Int).SetBytes(gargs[k]).Cmp(new(big.Int).SetBytes(want[k])) == 0
+					} else {
+						ok = ok && bytes.Equal(gargs[k], want[k])
+					}
+				}
+			}
+			if !ok {
+				rt.Fail(P, "roundtrip", "builder-typed", fmt.Sprintf("Func(\"fn\") %s builds %q, which parses to %q %x (%v); the methods describe %q %x", desc, str, gfn, gargs, err, fn, want), "case", desc)
+			}
+			if len(seq) > 0 {
+				// the last element as text is the hex form of the last value appended
+				if last, err := hex.DecodeString(b.GetLast()); err != nil || (isNum[len(isNum)-1] && new(big.Int).SetBytes(last).Cmp(new(big.Int).SetBytes(want[len(want)-1])) != 0) || (!isNum[len(isNum)-1] && !bytes.Equal(last, want[len(want)-1])) {
+					rt.Fail(P, "roundtrip", "builder-typed:GetLast", fmt.Sprintf("after %s GetLast gives %q, the last value appended is %x", desc, b.GetLast(), want[len(want)-1]), "case", desc)
+				}
+			}
+			rt.Case(fmt.Sprintf("rt-typed:len%d:args%d", len(seq), len(want)))
+		}
+		checkTyped(nil)
+		for i := range ops {
+			checkTyped([]int{i})
+			for j := range ops {
+				checkTyped([]int{i, j})
+			}
+		}
+		// triples over the elementary appends only
+		var elem []int
+		for i, o := range ops {
+			if len(o.args) == 1 {
+				elem = append(elem, i)
+			}
+		}
+		for _, i := range elem {
+			for _, j := range elem {
+				for _, k := range elem {
+					if !tier.Thorough() && (i+j+k)%3 != 0 {
+						continue
+					}
+					checkTyped([]int{i, j, k})
+				}
+			}
+		}
+	}
 	// one builder instance used for several strings: every operation sequence up to the bound over
 	// {Func, Bytes, Clear (as a statement and chained), SetLast}, against a (function, elements) model
 	{
